@@ -2,7 +2,89 @@ package main
 
 // regenerated facts of the "dedup" family (C01 C02 C04 C40)
 
+import (
+	"go/ast"
+	"go/token"
+	"strings"
+)
+
 func init() { families = append(families, factsDedup) }
 
+// assignsTo lists, in source order, the right-hand sides of the plain assignments `lhs = …`
+// in body.
+func assignsTo(body ast.Node, lhs string) []string {
+	var r []string
+	if body == nil {
+		return r
+	}
+	ast.Inspect(body, func(n ast.Node) bool {
+		a, ok := n.(*ast.AssignStmt)
+		if !ok || a.Tok != token.ASSIGN || len(a.Lhs) != 1 || len(a.Rhs) != 1 {
+			return true
+		}
+		if text(a.Lhs[0]) == lhs {
+			r = append(r, text(a.Rhs[0]))
+		}
+		return true
+	})
+	return r
+}
+
+// constValue returns the value text of `const name = …` declared in body.
+func constValue(body ast.Node, name string) string {
+	res := "unknown"
+	if body == nil {
+		return res
+	}
+	ast.Inspect(body, func(n ast.Node) bool {
+		vs, ok := n.(*ast.ValueSpec)
+		if !ok {
+			return true
+		}
+		for i, id := range vs.Names {
+			if id.Name == name && i < len(vs.Values) {
+				res = text(vs.Values[i])
+			}
+		}
+		return true
+	})
+	return res
+}
+
+// callArgs lists the argument texts of every call of callee (full selector text) in body.
+func callArgs(body ast.Node, callee string) []string {
+	var r []string
+	if body == nil {
+		return r
+	}
+	ast.Inspect(body, func(n ast.Node) bool {
+		c, ok := n.(*ast.CallExpr)
+		if !ok || callName(c) != callee {
+			return true
+		}
+		as := make([]string, len(c.Args))
+		for i, a := range c.Args {
+			as[i] = text(a)
+		}
+		r = append(r, strings.Join(as, ", "))
+		return true
+	})
+	return r
+}
+
 func factsDedup() {
+	f := parse("pkg/dedup/iter.go")
+	next := body(fn(f, "dedupSeriesIterator", "Next"))
+	seek := body(fn(f, "dedupSeriesIterator", "Seek"))
+	src := "pkg/dedup/iter.go dedupSeriesIterator"
+	emitStr("dedupSeekGuard", src+".Seek: the condition under which Seek starts with one Next (F01 repair)",
+		firstIfCond(seek, "MinInt64"))
+	emitList("dedupSeekCalls", src+".Seek: iterator calls in source order",
+		callSeq(seek, "it.Next", "it.AtT", "it.a.Seek", "it.b.Seek"))
+	emitStr("dedupInitialPenalty", src+".Next: const initialPenalty", constValue(next, "initialPenalty"))
+	emitList("dedupSeekArgsA", src+".Next: argument of it.a.Seek", callArgs(next, "it.a.Seek"))
+	emitList("dedupSeekArgsB", src+".Next: argument of it.b.Seek", callArgs(next, "it.b.Seek"))
+	emitList("dedupPenA", src+".Next: values assigned to it.penA, in source order", assignsTo(next, "it.penA"))
+	emitList("dedupPenB", src+".Next: values assigned to it.penB, in source order", assignsTo(next, "it.penB"))
+	emitList("dedupUseA", src+".Next: values assigned to it.useA, in source order", assignsTo(next, "it.useA"))
 }
